@@ -11,8 +11,10 @@ let do_rw chunks b e old second =
   let b = int_of_string b and e = int_of_string e in
   let lb1 = match lbuf_rd lbuf_make cs O O, second with
     | Some lb, Some (pos, c2) ->
-      let p = nat_of_int (int_of_string pos) in
-      lbuf_rd lb (List.map bytes_of_hex (split_on ',' c2)) p p
+      let (p, q) = match String.split_on_char ':' pos with
+        | [a; b] -> (nat_of_int (int_of_string a), nat_of_int (int_of_string b))
+        | _ -> (nat_of_int (int_of_string pos), nat_of_int (int_of_string pos)) in
+      lbuf_rd lb (List.map bytes_of_hex (split_on ',' c2)) p q
     | r, _ -> r in
   match lb1 with
   | None -> pr "outoffuel\n"
